@@ -172,6 +172,23 @@ func blockFamily(o hreg.Opts) *family {
 			f.bases = append(f.bases, k)
 		}
 	}
+	// no block for more than a full epoch: the parent is 2, 3 and 5 epochs before the block's epoch
+	for _, cfg := range []string{"s", "b", "f"} {
+		c := mustGet(cfg)
+		for _, sp := range [][2]uint64{{26, 9}, {24, 15}, {33, 8}, {39, 10}, {41, 3}, {47, 7}, {56, 37}} {
+			slot, pslot := sp[0], sp[1]
+			exp, err := c.mustAt(slot / 8).epc.GetBeaconProposer(common.Slot(slot))
+			if err != nil {
+				panic(err)
+			}
+			k := newKVs("block")
+			k.set("cfg", cfg).setU("slot", slot).setU("proposer", uint64(exp)).setU("proot", 1).setU("pslot", pslot).
+				set("sigk", "ok").set("digestk", "ok").
+				setU("max", slot).set("seen", "0").set("pknown", "1").setU("fepoch", 0).setU("froot", 2).
+				set("fsub", "yes").set("pepc", "1").set("tow", "1").set("sepc", "1")
+			f.bases = append(f.bases, k)
+		}
+	}
 	wrongProposer := func(k *kvs) {
 		n := uint64(mustCtx(k).def.validators)
 		k.setU("proposer", (k.u("proposer")+1)%n)
@@ -695,6 +712,9 @@ func pslashFamily(o hreg.Opts) *family {
 		// all four edges of is_slashable_validator: activation_epoch in {epoch, epoch+1}, withdrawable_epoch in {epoch, epoch+1}
 		{"validator", []mutation{vm("slashed"), vm("withdrawn"), vm("inactive"), vm("unwd"), vm("exited"),
 			vm("justactive"), vm("actnext"), vm("wdnext")}},
+		// two individually invalid signatures whose SUM equals the sum of the two honest ones (s1 + X, s2 - X)
+		{"compensating", []mutation{m("compensating-signatures", set("sigk1", "compplus"), set("sigk2", "compminus")),
+			m("compensating-signatures-swapped", set("sigk1", "compminus"), set("sigk2", "compplus"))}},
 		{"sig1", sigAlts("sigk1")},
 		{"sig2", sigAlts("sigk2")},
 	}
@@ -774,6 +794,8 @@ func aslashFamily(o hreg.Opts) *family {
 		{"head", []mutation{m("head-err", set("head", "0"))}},
 		{"validators", []mutation{vmAll("slashed"), vmAll("withdrawn"), vmAll("inactive"), vmFirst("slashed"), vmFirst("unwd"),
 			vmAll("justactive"), vmAll("actnext"), vmAll("wdnext"), vmFirst("actnext"), vmFirst("justactive")}},
+		{"compensating", []mutation{m("compensating-signatures", set("sigk1", "compplus"), set("sigk2", "compminus")),
+			m("compensating-signatures-swapped", set("sigk1", "compminus"), set("sigk2", "compplus"))}},
 		{"sig1", asig("sigk1")},
 		{"sig2", asig("sigk2")},
 	}
